@@ -402,6 +402,13 @@ pub fn run(tier: &str) -> Part {
         ("SELECT 1", None),
         ("SELECT * FROM data WHERE v = 'x'", None),
         ("SHOW SHARD", None),
+        // extended protocol: Parse of the text before `<-`, then Bind of the parameters after it
+        ("SELECT * FROM data WHERE id = $1 <- 41", Some(pghash::pg_partition(41, 5) as usize)),
+        ("SELECT * FROM data WHERE id = $1 <- 7", Some(pghash::pg_partition(7, 5) as usize)),
+        ("SELECT * FROM data WHERE id = $1 <- NULL", None),
+        ("SELECT * FROM data WHERE id = $1 <- abc", None),
+        ("SELECT * FROM data WHERE v = $1 <- 41", None),
+        ("SELECT * FROM other WHERE x = $1 AND y = $2 <- 7,8", None),
     ];
     let depth = if thorough { 4 } else { 3 };
     let mut seqs: Vec<Vec<usize>> = vec![vec![]];
@@ -425,10 +432,19 @@ pub fn run(tier: &str) -> Part {
                 for c in seq {
                     let (sql, eff) = cmds[*c];
                     let before = model;
-                    let m = q(sql);
-                    if qr.try_execute_command(&m).is_none() {
+                    if let Some((text, params)) = sql.split_once(" <- ") {
+                        let m = bm(&wire::parse("", text, &[]));
                         if let Ok(ast) = qr.parse(&m) {
                             let _ = qr.infer(&ast);
+                        }
+                        let ps: Vec<Option<Vec<u8>>> = params.split(',').map(|p| if p == "NULL" { None } else { Some(p.as_bytes().to_vec()) }).collect();
+                        qr.infer_shard_from_bind(&bm(&wire::bind("", "", &[], &ps, &[])));
+                    } else {
+                        let m = q(sql);
+                        if qr.try_execute_command(&m).is_none() {
+                            if let Ok(ast) = qr.parse(&m) {
+                                let _ = qr.infer(&ast);
+                            }
                         }
                     }
                     if let Some(s) = eff {
@@ -469,7 +485,7 @@ pub fn run(tier: &str) -> Part {
     part.extra.insert("dont_care".into(), json!(dont_care));
     part.extra.insert("hash32_values_checked".into(), json!(n1 / moduli.len() as u64));
     part.rule = format!(
-        "hash: every {}th of the 2^32 folded inputs x moduli {{2^64-1, 2^63, 1000003}} through Sharder::shard vs an independent transcription of hashint8extended/hash_combine64 (self-checked on the 50 recorded PostgreSQL partitions); fold on a {}x{} grid of halves; moduli 1..{} x {} keys x both functions; {} routing paths x keys x shard counts {{1,2,3,5,12}} x both functions; key-less statements; all command histories to depth {}; a state = one evaluated input / router selection state, a transition = one evaluation / router step",
+        "hash: every {}th of the 2^32 folded inputs x moduli {{2^64-1, 2^63, 1000003}} through Sharder::shard vs an independent transcription of hashint8extended/hash_combine64 (self-checked on the 50 recorded PostgreSQL partitions); fold on a {}x{} grid of halves; moduli 1..{} x {} keys x both functions; {} routing paths x keys x shard counts {{1,2,3,5,12}} x both functions; key-less statements; all histories to depth {} over commands, comments, literals and extended-protocol Parse+Bind pairs (key bound to a number / NULL / text, key-less statements with parameters); a state = one evaluated input / router selection state, a transition = one evaluation / router step",
         stride,
         halves.len(),
         halves.len(),
